@@ -96,3 +96,31 @@ def resident_bound(cx, cfg):
         if found:
             out |= found
     return frozenset(out)
+
+
+def cap_aliases(cx, cfg):
+    """scalar fields of a composite constructed with the same term as the cap of one of its RawLRU fields (e.g. protected_size -> protected)"""
+    F = cx.facts[cfg]
+    out = {}
+    for short, adt in api.CACHES.items():
+        a = F.adts.get(adt)
+        if a is None or adt == api.CACHES["RawLRU"]:
+            continue
+        for f in F.doc["fns"]:
+            if f["kind"] != "AssocFn" or not f.get("exported") or adt not in str(f.get("output")):
+                continue
+            for p in cx.paths(cfg, f["path"]):
+                for t in subterms(p.ret):
+                    if t[0] == "agg" and t[1] == "adt" and t[2][0] == adt:
+                        vals = dict(zip(t[4], t[3]))
+                        caps = {}
+                        for fld, v in vals.items():
+                            if isinstance(v, tuple) and v[0] == "agg" and v[1] == "adt" and v[2][0] == "lru::raw::RawLRU":
+                                caps[fld] = dict(zip(v[4], v[3])).get("cap")
+                        for fld, v in vals.items():
+                            if fld in caps or fld == "size":
+                                continue
+                            m = [l for l, c in caps.items() if c == v and not (isinstance(v, tuple) and v[0] == "const")]
+                            if len(m) == 1:
+                                out[fld] = m[0]
+    return out
